@@ -423,7 +423,7 @@ func c02ExpansionOrder(c *Check, a *Anchors) {
 	}
 	// the matrix product
 	var prod *FuncBody
-	for _, b := range c.P.BodiesIn(PkgTask) {
+	for _, b := range append(c.P.BodiesIn(PkgTask), c.P.BodiesIn(PkgAst)...) { // a function of package task, or a method of the matrix itself
 		if b.Decl == nil || b.Type.Results == nil || len(b.Type.Results.List) != 1 {
 			continue
 		}
